@@ -567,6 +567,208 @@ Definition spec_ok (protos : list proto) (w : option Z) (out : list ocand) : boo
 Definition eSpec (protos : list proto) (w : option Z) (out : list ocand) : list Z :=
   eBool (spec_ok protos w out) ++ flat_map eBool (spec_clauses protos w out).
 
+(* ---------- the formation with the two proposed repairs switched on or off ---------- *)
+(* `nw` = true: the bisect window and the early break of the "unassigned / singles overlapping with candidates"
+   loops are replaced by a scan of all candidates (repair proposed for finding candidate_index_window);
+   `allp` = true: _find_neighbouring compares ALL singles with each other, not only those that overlap no
+   candidate (repair proposed for finding neighbouring_singles_not_linked).  With both flags false these are the
+   functions above (find_interleaved, find_neighbouring, formation_body, create_candidates), definition by
+   definition; the variants serve as class predicates of the two findings and carry the completeness theorems. *)
+Definition find_interleaved_v (nw : bool) (clusters : list proto) (cands : list cand) (w : option Z)
+  : res (list (list proto) * list proto) :=
+  do cc <- with_cores w cands;
+  let groups0 := find_interleaved_candidates cc in
+  let by_core := sort_by core_start_lt clusters in
+  let pp := core_pairs by_core in
+  let groups1 := groups0 ++ map (fun xy => [fst xy; snd xy]) pp in
+  let found1 := concat (map (fun xy => [fst xy; snd xy]) pp) in
+  let hits := flat_map (fun cl =>
+                  map (fun ck => (ck, cl))
+                      (if nw then filter (fun ck : cand * loc => overlap (snd ck) (pcore cl)) cc
+                       else cand_scan (fun ck => overlap (snd ck) (pcore cl)) (lend (ploc cl))
+                                      (skipn (window_index cc cl) cc))) by_core in
+  let groups2 := groups1 ++ map (fun h => cmem (fst (fst h)) ++ [snd h]) hits in
+  let found2 := found1 ++ map snd hits in
+  do fg <- find_cross_origin_interleaved w cc by_core groups2;
+  let '(found3, groups3) := fg in
+  Ok (merge_sets groups3, sort_by lt_pp (iter (diff clusters (found2 ++ found3)))).
+
+Definition find_neighbouring_v (nw allp : bool) (singles : list proto) (cands : list cand) : list (list proto) :=
+  let groups0 := find_neighbouring_candidates cands in
+  let hits := flat_map (fun s =>
+                 map (fun c => (c, s))
+                     (if nw then filter (fun c => overlap (ploc s) (cloc c)) cands
+                      else cand_scan_plain (fun c => overlap (ploc s) (cloc c)) (lend (ploc s))
+                                           (skipn (window_index_plain cands s) cands ++ firstn 1 cands))) singles in
+  let groups1 := groups0 ++ map (fun h => union (cmem (fst h)) [snd h]) hits in
+  let unassigned := diff singles (map snd hits) in
+  let edges :=
+    if is_empty unassigned || is_empty cands then [] else
+    (match cands with c0 :: _ => if bridges (cloc c0) then [c0] else [] | [] => [] end)
+    ++ (match cands with
+        | _ :: _ :: _ => match last_opt cands with
+                         | Some cl => if bridges (cloc cl) then [cl] else []
+                         | None => []
+                         end
+        | _ => []
+        end) in
+  let edge_groups := flat_map (fun c =>
+                        match filter (fun s => overlap (ploc s) (cloc c)) (iter unassigned) with
+                        | s :: _ => [cmem c ++ [s]]
+                        | [] => []
+                        end) edges in
+  let groups2 := groups1 ++ edge_groups in
+  merge_sets (groups2 ++ find_neighbouring_protoclusters
+                           (if allp then singles else sort_by lt_pp (iter unassigned))).
+
+Definition formation_body_v (nw allp : bool) (protos : list proto) (w : option Z) : res (list cand) :=
+  let unassigned0 := sort_by lt_pp protos in
+  do hu <- find_hybrids unassigned0 w;
+  let '(hybrid_groups, unassigned1) := hu in
+  do b1 <- build_candidates w K_HYBRID hybrid_groups [] [];
+  let '(cands1, ex1, singles1) := b1 in
+  do iu <- find_interleaved_v nw unassigned1 cands1 w;
+  let '(inter_groups, unassigned2) := iu in
+  do b2 <- build_candidates w K_INTERLEAVED inter_groups ex1 singles1;
+  let '(cands2, ex2, singles2) := b2 in
+  let neigh_groups := find_neighbouring_v nw allp unassigned2 cands2 in
+  do b3 <- build_candidates w K_NEIGHBOURING neigh_groups ex2 singles2;
+  let '(cands3, ex3, singles3) := b3 in
+  do ss <- singles_go w ex3 (ordered_set (unassigned2 ++ singles3));
+  Ok (cands3 ++ ss).
+
+Definition create_candidates_v (nw allp : bool) (protos : list proto) (w : option Z) : res (list cand) :=
+  match protos with
+  | [] => Ok []
+  | _ =>
+    do cands <- formation_body_v nw allp protos w;
+    if negb (assigned_count cands =? zlen protos) then Err E_Assert else
+    Ok (sort_by lt_cc cands)
+  end.
+
+(* ---------- the meaning of the kinds, as decidable clauses on an output ---------- *)
+(* the transitive group of `p` under a relation on the supplied protoclusters (breadth first; one round per
+   protocluster is enough) *)
+Fixpoint grow (fuel : nat) (rel : proto -> proto -> bool) (all comp : list proto) : list proto :=
+  match fuel with
+  | O => comp
+  | S f =>
+    let add := filter (fun q => negb (pmem q comp) && existsb (fun p => rel p q) comp) (iter all) in
+    if is_empty add then comp else grow f rel all (comp ++ add)
+  end.
+Definition component (rel : proto -> proto -> bool) (all : list proto) (p : proto) : list proto :=
+  grow (length all) rel all [p].
+Definition rel_H (p q : proto) : bool := negb (pid p =? pid q) && defs_intersect p q.   (* share a defining gene *)
+Definition rel_I (p q : proto) : bool := overlap (pcore p) (pcore q).                   (* cores overlap *)
+Definition rel_N (p q : proto) : bool := overlap (ploc p) (ploc q).                     (* full extents overlap *)
+Definition okind (c : ocand) : Z := fst (fst c).
+Definition oids (c : ocand) : list Z := snd (fst c).
+Definition oloc (c : ocand) : loc := snd c.
+Definition omembers (protos : list proto) (c : ocand) : list proto :=
+  flat_map (fun i => match find_proto protos i with Some p => [p] | None => [] end) (oids c).
+(* every transitive group (of at least two protoclusters) lies inside one candidate of an allowed kind *)
+Definition groups_inside (rel : proto -> proto -> bool) (kinds : list Z) (protos : list proto) (out : list ocand) : bool :=
+  forallb (fun p => let k := component rel protos p in
+                    negb (1 <? zlen k) ||
+                    existsb (fun c : ocand => zmem (okind c) kinds && zsubset (map pid k) (oids c)) out) protos.
+(* a NEIGHBOURING candidate is exactly one transitive group of overlapping extents *)
+Definition neighbouring_exact (protos : list proto) (out : list ocand) : bool :=
+  forallb (fun c : ocand =>
+             negb (okind c =? K_NEIGHBOURING) ||
+             match omembers protos c with
+             | [] => false
+             | p :: _ => let k := map pid (component rel_N protos p) in zsubset k (oids c) && zsubset (oids c) k
+             end) out.
+(* an INTERLEAVED candidate is connected by overlapping cores, the units being its protoclusters and the
+   chemical hybrids it contains (a hybrid's core is the joint core of its members).  Members that have a SINGLE
+   of their own are left out: they are the extras of a promotion (a weaker group with the coordinates of this
+   candidate was merged into it, documented behaviour of build_candidates), not interleaved members; likewise
+   members whose single is suppressed because a candidate with their coordinates contains them.  Such members
+   may still serve as links *)
+Definition interleaved_connected (protos : list proto) (w : option Z) (out : list ocand) : bool :=
+  forallb (fun c : ocand =>
+             negb (okind c =? K_INTERLEAVED) ||
+             let all := omembers protos c in
+             (* members that must be linked: those that would not have got a single anyway *)
+             let req := filter (fun p => negb (existsb (fun d : ocand =>
+                                                   ((okind d =? K_SINGLE) && list_eqb Z.eqb (oids d) [pid p])
+                                                   || (zmem (pid p) (oids d) && (fstart (oloc d) =? fstart (ploc p))
+                                                       && (fend (oloc d) =? fend (ploc p)))) out)) all in
+             let units := map (fun p => [p]) all
+                          ++ map (omembers protos)
+                                 (filter (fun h : ocand => (okind h =? K_HYBRID) && zsubset (oids h) (oids c)) out) in
+             let hulls := flat_map (fun u => match connect_locations (map pcore u) w with
+                                             | Ok l => [(u, l)] | Err _ => [] end) units in
+             let rel := fun p q : proto =>
+               existsb (fun ul : list proto * loc =>
+                          pmem p (fst ul) &&
+                          existsb (fun vl : list proto * loc => pmem q (fst vl) && overlap (snd ul) (snd vl)) hulls) hulls in
+             match req with
+             | [] => true
+             | p :: _ => zsubset (map pid req) (map pid (component rel all p))
+             end) out.
+(* a protocluster in no chemical hybrid and no interleaved candidate has a SINGLE of its own, unless a
+   candidate with its coordinates contains it *)
+Definition singles_present (protos : list proto) (out : list ocand) : bool :=
+  forallb (fun p =>
+             existsb (fun c : ocand => ((okind c =? K_HYBRID) || (okind c =? K_INTERLEAVED)) && zmem (pid p) (oids c)) out
+             || existsb (fun c : ocand => (okind c =? K_SINGLE) && list_eqb Z.eqb (oids c) [pid p]) out
+             || existsb (fun c : ocand => zmem (pid p) (oids c) && (fstart (oloc c) =? fstart (ploc p))
+                                          && (fend (oloc c) =? fend (ploc p))) out) protos.
+Definition kind_clauses (protos : list proto) (w : option Z) (out : list ocand) : list bool :=
+  [ groups_inside rel_H [K_HYBRID] protos out;
+    groups_inside rel_I [K_HYBRID; K_INTERLEAVED] protos out;
+    groups_inside rel_N [K_HYBRID; K_INTERLEAVED; K_NEIGHBOURING] protos out;
+    neighbouring_exact protos out;
+    interleaved_connected protos w out;
+    singles_present protos out ].
+Definition spec_clauses_all (protos : list proto) (w : option Z) (out : list ocand) : list bool :=
+  spec_clauses protos w out ++ kind_clauses protos w out.
+Definition eSpecAll (protos : list proto) (w : option Z) (out : list ocand) : list Z :=
+  eBool (forallb (fun b => b) (spec_clauses_all protos w out)) ++ flat_map eBool (spec_clauses_all protos w out).
+
+(* class information for the two findings: does the window / early break change the result, does the
+   restriction to hit-less singles change it, and does the formation with both repairs meet every clause *)
+Definition to_ocand (c : cand) : ocand := (ckind c, map pid (cmem c), cloc c).
+Definition res_cands_eqb (a b : res (list cand)) : bool :=
+  match a, b with
+  | Ok x, Ok y => list_eqb (fun c d : cand => (ckind c =? ckind d) && list_eqb Z.eqb (map pid (cmem c)) (map pid (cmem d))
+                                              && loc_eqb (cloc c) (cloc d)) x y
+  | Err j, Err k => j =? k
+  | _, _ => false
+  end.
+Definition eCand0 (c : cand) : list Z :=
+  ckind c :: eList (fun p => [pid p]) (cmem c) ++ eList (fun q : part => [ps q; pe q; pst q]) (cloc c).
+Definition class_info (protos : list proto) (w : option Z) : list Z :=
+  let base := create_candidates protos w in
+  eBool (negb (res_cands_eqb base (create_candidates_v true false protos w)))
+  ++ eBool (negb (res_cands_eqb base (create_candidates_v false true protos w)))
+  ++ match create_candidates_v true true protos w with
+     | Ok out => eBool (forallb (fun b => b) (spec_clauses_all protos w (map to_ocand out)))
+                 ++ flat_map eBool (spec_clauses_all protos w (map to_ocand out)) ++ eList eCand0 out
+     | Err k => [0; k]
+     end.
+
+(* ---------- decidable specification of _merge_sets, evaluated on an implementation output ---------- *)
+(* the returned groups are exactly the transitive groups of the supplied sets under "share a protocluster":
+   every returned group is non-empty and equals the transitive group of its first member, the groups are
+   pairwise disjoint, and the same protoclusters occur in the output as in the input *)
+Definition zdisjoint (a b : list Z) : bool := negb (existsb (fun x => zmem x b) a).
+Fixpoint pairwise_zdisjoint (l : list (list Z)) : bool :=
+  match l with [] => true | x :: r => forallb (zdisjoint x) r && pairwise_zdisjoint r end.
+Definition spec_merge (groups : list (list proto)) (out : list (list Z)) : bool :=
+  let all := concat groups in
+  let rel := fun p q : proto => existsb (fun g => pmem p g && pmem q g) groups in
+  forallb (fun h => match h with
+                    | [] => false
+                    | i :: _ => match find_proto all i with
+                                | Some p => let k := map pid (component rel all p) in zsubset k h && zsubset h k
+                                | None => false
+                                end
+                    end) out
+  && pairwise_zdisjoint out
+  && zsubset (map pid all) (concat out) && zsubset (concat out) (map pid all).
+
 (* ---------- encoding ---------- *)
 Definition dGene : dec gene := fun l =>
   match dPair (dPair dZ dLoc) (dList dZ) l with
@@ -608,6 +810,14 @@ Definition run_C05 (fn : Z) (l : list Z) : list Z :=
       eList (eList (fun p => [pid p])) (merge_sets gs)
     | _ => bad_input
     end
+  | 103 => (* spec on the implementation's output of fn 3 *)
+    match dPair (dPair (dList dProtoD) (dList (dList dZ))) (dList (dList dZ)) l with
+    | Some ((protos, groups, out), []) =>
+      let gs := map (fun g => flat_map (fun i => match find_proto protos i with
+                                                 | Some p => [p] | None => [] end) g) groups in
+      eBool (spec_merge gs out)
+    | _ => bad_input
+    end
   | 11 => (* finding class joint_core_wraps_assert for an input of fn 1 *)
     match dPair (dPair (dPair dZ dBool) (dList dGene)) (dList dProto) l with
     | Some ((n, circ, genes, protos), []) =>
@@ -620,12 +830,23 @@ Definition run_C05 (fn : Z) (l : list Z) : list Z :=
     | Some ((w, protos), []) => eBool (class_joint_core_wraps protos w)
     | _ => bad_input
     end
+  | 21 => (* class information of the findings candidate_index_window / neighbouring_singles_not_linked, input of fn 1 *)
+    match dPair (dPair (dPair dZ dBool) (dList dGene)) (dList dProto) l with
+    | Some ((n, circ, genes, protos), []) =>
+      class_info (fold_left record_insert_proto (map (with_defs genes) protos) []) (if circ then Some n else None)
+    | _ => bad_input
+    end
+  | 22 => (* ... input of fn 2 *)
+    match dPair (dOpt dZ) (dList dProtoD) l with
+    | Some ((w, protos), []) => class_info protos w
+    | _ => bad_input
+    end
   | 101 => (* spec on the implementation's output of fn 1 *)
     match dPair (dPair (dPair dZ dBool) (dList dGene)) (dList dProto) l with
     | Some ((n, circ, genes, protos), r) =>
       match r with
       | 0 :: r' => match dList dOCand r' with
-                   | Some (out, []) => eSpec protos (if circ then Some n else None) out
+                   | Some (out, []) => eSpecAll (map (with_defs genes) protos) (if circ then Some n else None) out
                    | _ => bad_input
                    end
       | [1; _] => [2]   (* the implementation raised: no output to judge *)
@@ -638,7 +859,7 @@ Definition run_C05 (fn : Z) (l : list Z) : list Z :=
     | Some ((w, protos), r) =>
       match r with
       | 0 :: r' => match dList dOCand r' with
-                   | Some (out, []) => eSpec protos w out
+                   | Some (out, []) => eSpecAll protos w out
                    | _ => bad_input
                    end
       | [1; _] => [2]
